@@ -75,11 +75,13 @@ def search(chk, r, n, max_pto):
                 name = f"{kind}_{fl}"
                 pair = r.choice([("neutrino", "antineutrino"), ("electron", "positron")])
                 th = cards.theory(PTO=pto, FNS=scheme, NfFF=nfff, **th_kw)
+                # the relation holds for every target (isospin rotates quarks and antiquarks alike)
+                ob_kw = dict(ob_kw, TargetDIS=r.choice(["proton", "isoscalar", "iron", "neutron", dict(Z=1.0, A=3.0)]))
                 a = realrun.run(th, cards.obs({name: p}, prDIS="CC", ProjectileDIS=pair[0], **ob_kw))[name][0]
                 b = realrun.run(th, cards.obs({name: p}, prDIS="CC", ProjectileDIS=pair[1], **ob_kw))[name][0]
                 sigma = -1.0 if kind == "F3" else 1.0
                 d, s = relmax(ops(b), conj(ops(a), sigma))
-                sample = dict(rel=which, obs=name, pto=pto, FNS=scheme, NfFF=nfff, beams=pair, point=p[0], ckm=th_kw["CKM"], maxdiff=d, scale=s)
+                sample = dict(rel=which, obs=name, pto=pto, FNS=scheme, NfFF=nfff, beams=pair, target=ob_kw["TargetDIS"], point=p[0], ckm=th_kw["CKM"], maxdiff=d, scale=s)
                 chk.search_case("cc_charge_conjugation", d <= 1e-12 * max(s, 1e-300), what="CC conjugate beam != sigma * operator on conjugated pids", data=sample, sample=sample, nontrivial=s > 0)
             else:
                 kind = r.choice(cards.SFS)
